@@ -50,7 +50,11 @@ def deep_equal(a, b, rtol=0.0, atol=0.0, path="result"):
     with np.errstate(invalid="ignore"):
         same = (xa == xb) | (np.isnan(xa) & np.isnan(xb))
         if rtol or atol:
-            same = same | (np.abs(xa - xb) <= atol + rtol * np.maximum(np.abs(xa), np.abs(xb)))
+            # tolerance applies to finite values only (inf vs finite must never be "close")
+            fin = np.isfinite(xa) & np.isfinite(xb)
+            close = np.zeros(xa.shape, dtype=bool)
+            close[fin] = np.abs(xa[fin] - xb[fin]) <= atol + rtol * np.maximum(np.abs(xa[fin]), np.abs(xb[fin]))
+            same = same | close
     if np.all(same):
         return None
     idx = tuple(int(i) for i in np.argwhere(~same)[0]) if xa.ndim else ()
